@@ -83,7 +83,12 @@ def check_panics(d, rs):
 
 
 def proj(rs, m):
-    return [r for r in rs if rec_mod(r) == m or (r[0] == R_ERR and r[2] == m)]
+    """what module m experienced: its records of the start-up phase and of the dispatched events, its tear-down records without
+    their time stamp (the instant the simulation ends at depends on left-over wake-ups of other modules), its error entries"""
+    start, boot, events, end, errs = phases(rs)
+    body = [r for r in start if rec_mod(r) == m] + [r for ev in events for r in ev if rec_mod(r) == m]
+    tail = [(r[0], r[1], r[2], 0, r[4]) if r[0] in CALLS else r for r in end if rec_mod(r) == m]
+    return body + tail + [r for r in errs if r[2] == m]
 
 
 def monitor(script, out):
